@@ -1,5 +1,6 @@
 import OmplModel.Proofs.Motion
 import OmplModel.Proofs.MotionNum
+import OmplModel.Proofs.MotionReconf
 /-!
 C05 — a motion is valid exactly when every resolution step along it is valid.
 
@@ -819,5 +820,158 @@ example : segCount 2 (7 : ℚ) 2 = 8 := by
   have : ⌈(7 : ℚ) / 2⌉₊ = 4 := by
     rw [Nat.ceil_eq_iff (by norm_num)]; norm_num
   rw [this]
+
+
+/-! ### round 10: a motion check depends on the two states, the CURRENT segment count and the CURRENT validity predicate
+only — not on earlier calls, not on a configuration that has been replaced, not on calls interleaved at query points -/
+
+section history
+variable {ρ φ δ : Type}
+
+/-- [AF] after ANY history of reconfigurations and checks, a motion check is the pure check under the validator installed
+last, the checker object installed last, the factors set last and the resolution that was pending when `setup()` last
+ran (a resolution set after it is not in force yet) — "last write wins", read off the history without running it. -/
+theorem history_current_config (E : Env ρ φ δ) (c0 : Config ρ φ) (h : List (Op ρ φ δ)) (three : Bool) (d : δ) :
+    ((c0.after E h).step E (.check three d)).2 =
+      some (checkWith E (lastValidator c0.val h) (lastChecker c0.checker h) (lastFactor c0.factor h)
+        (effectiveResolution c0.pending c0.effective h) three d) := by
+  simp [Config.step, Config.checkNow, after_checker, after_factor, after_val, after_effective]
+
+/-- [AF] no dependence on earlier calls: deleting every earlier motion check from the history changes nothing about
+the result of the next one (only the counters it adds to). -/
+theorem history_checks_irrelevant (E : Env ρ φ δ) (c0 : Config ρ φ) (h : List (Op ρ φ δ)) (three : Bool) (d : δ) :
+    ((c0.after E h).step E (.check three d)).2 = ((c0.after E (dropChecks h)).step E (.check three d)).2 := by
+  rw [history_current_config, history_current_config, lastValidator_dropChecks, lastChecker_dropChecks,
+    lastFactor_dropChecks, effectiveResolution_dropChecks]
+
+/-- [AF] so the verdict after a history is valid exactly when every subdivision point — under the segment count of the
+resolution and factors in force — is valid for the checker installed last (Dubins3D: given a path). -/
+theorem history_verdict (E : Env ρ φ δ) (c0 : Config ρ φ) (h : List (Op ρ φ δ)) (three : Bool) (d : δ)
+    (hp : E.pathOk d = true) :
+    ∃ r, ((c0.after E h).step E (.check three d)).2 = some r ∧
+      (r.verdict = true ↔
+        AllValid (E.seg (lastFactor c0.factor h) (effectiveResolution c0.pending c0.effective h) d)
+          (E.valid (lastChecker c0.checker h) d)) := by
+  refine ⟨_, history_current_config E c0 h three d, ?_⟩
+  unfold checkWith
+  rw [hp]
+  cases three
+  · exact (validators_verdict _ _ _).1
+  · exact (validators_verdict _ _ _).2
+
+/-- [AF] every check adds exactly one to the counters of the validator that is installed, and a replaced validator
+or a reset starts from zero. -/
+theorem history_counters_step (E : Env ρ φ δ) (c : Config ρ φ) (three : Bool) (d : δ) :
+    ((c.step E (.check three d)).1.cv + (c.step E (.check three d)).1.ci = c.cv + c.ci + 1) ∧
+    (∀ v s, (c.step E (.setValidator v s)).1.cv = 0 ∧ (c.step E (.setValidator v s)).1.ci = 0) ∧
+    ((c.step E (Op.resetCounters : Op ρ φ δ)).1.cv = 0 ∧ (c.step E (Op.resetCounters : Op ρ φ δ)).1.ci = 0) := by
+  refine ⟨?_, fun _ _ => ⟨rfl, rfl⟩, rfl, rfl⟩
+  have h := counters_exactly_one_all c.val (E.pathOk d) (E.seg c.factor c.effective d) (E.valid c.checker d)
+  simp only [Config.step, Config.checkNow, checkWith]
+  cases three
+  · have := h.1; unfold CountsOnce at this; simp only [Bool.false_eq_true, if_false]; omega
+  · have := h.2; unfold CountsOnce at this; simp only [if_true]; omega
+
+end history
+
+/-- a concrete world for the examples: segment count = the pair itself, checker `0` rejects point `2`, checker `1`
+accepts everything. -/
+def exEnv : Env Nat Nat Nat := ⟨fun _ _ d => d, fun _ => true, fun k _ j => !(k == 0 && j == 2)⟩
+def exCfg : Config Nat Nat := ⟨0, 0, 0, 1, .discrete, 0, 0⟩
+
+/-- check (invalid under checker 0), install checker 1, check again: valid — and the counters say 1/1. -/
+example : ((exCfg.after exEnv [.setChecker 1, .check true 3]).step exEnv (.check true 3)).2.map (·.verdict) = some true ∧
+    ((exCfg.after exEnv [.check true 3]).step exEnv (.check true 3)).2.map (·.verdict) = some false ∧
+    (exCfg.after exEnv [.check true 3, .setChecker 1, .check true 3]).cv = 1 ∧
+    (exCfg.after exEnv [.check true 3, .setChecker 1, .check true 3]).ci = 1 := by decide
+
+/-- the configuration after a history for the latched variant (most recent operation first). -/
+def latchedAfter {ρ φ δ : Type} (E : Env ρ φ δ) (c0 : LatchedConfig ρ φ) : List (Op ρ φ δ) → LatchedConfig ρ φ
+  | [] => c0
+  | op :: earlier => ((latchedAfter E c0 earlier).step E op).1
+
+/-- the defect class of seeded change C05-s6 is a violation: a validator that keeps the checker it saw at its first
+call does NOT answer "valid exactly when every subdivision point is valid" (for the checker that is installed) —
+witness: check, install a checker that accepts everything, check again: still `false`. -/
+theorem latched_checker_fails :
+    ¬ ∀ (E : Env Nat Nat Nat) (c0 : Config Nat Nat) (h : List (Op Nat Nat Nat)) (d : Nat),
+      (((latchedAfter E ⟨c0, none⟩ h).step E (.check true d)).2.map (·.verdict) = some true ↔
+        AllValid (E.seg (lastFactor c0.factor h) (effectiveResolution c0.pending c0.effective h) d)
+          (E.valid (lastChecker c0.checker h) d)) := by
+  intro h
+  have := (h exEnv exCfg [.setChecker 1, .check true 3] 3).2 ⟨by decide, fun j _ _ => by simp [exEnv, lastChecker]⟩
+  exact absurd this (by decide)
+
+/-- [AF] calls interleaved at query points: with a scratch state per call (as coded: `si_->allocState()` inside
+`checkMotion`), whatever the validity checker does before it answers — `hook` is ANY transformation of the state shared
+between calls, e.g. any number of complete nested `checkMotion` calls on the same validator — the call returns the pure
+check's verdict, `lastValid` report, question order and counter increment for ITS motion and ITS predicate. -/
+theorem reentrant_result_alone (three : Bool) (n : Nat) (v : Nat × Nat → Bool) (hook : World → World) (w : World) :
+    (checkW three (askVia false 0 n v hook) n w).1 = checkPure three n (fun j => v (0, j)) := by
+  rw [checkW_spec three _ (fun j => v (0, j)) (fun j w => askVia_own_fst 0 n v hook j w)]
+
+/-- [AF] the same for every validator (given a path): the result is `checkMotion3` / `checkMotion2` of the outer
+motion alone. -/
+theorem reentrant_validators (val : Validator) (n : Nat) (v : Nat × Nat → Bool) (hook : World → World) (w : World) :
+    (checkW true (askVia false 0 n v hook) n w).1 = checkMotion3 val true n (fun j => v (0, j)) ∧
+    (checkW false (askVia false 0 n v hook) n w).1 = checkMotion2 val true n (fun j => v (0, j)) := by
+  rw [reentrant_result_alone, reentrant_result_alone, checkMotion3_path, checkMotion2_path]
+  exact ⟨rfl, rfl⟩
+
+/-- [AF] the scripted scenario in full: the checker, at the `k`-th question of the outer call, runs a complete check
+(either form) of another motion.  The outer call returns what it returns alone; the nested call runs iff the outer call
+asks at least `k` questions and returns what IT returns alone; the counters end up advanced by exactly the two calls'
+own increments; the shared scratch is never written. -/
+theorem reentrant_nested_alone (three : Bool) (n k : Nat) (three' : Bool) (n' : Nat) (v : Nat × Nat → Bool)
+    (cv ci : Nat) (s : Nat × Nat) :
+    let P := checkPure three n (fun j => v (0, j))
+    let R := checkPure three' n' (fun j => v (1, j))
+    let ran := 0 < k ∧ k ≤ P.queries.length
+    outerCall false three n k three' n' v ⟨cv, ci, s, 0, none⟩ =
+      (P, ⟨cv + (if ran then R.dValid else 0) + P.dValid, ci + (if ran then R.dInvalid else 0) + P.dInvalid, s,
+        P.queries.length, if ran then some R else none⟩) := by
+  intro P R ran
+  unfold outerCall
+  rw [checkW_spec three _ (fun j => v (0, j)) (fun j w => askVia_own_fst 0 n v _ j w)]
+  have hf : ∀ (l : List Nat) (w : World),
+      l.foldl (fun w j => (askVia false 0 n v (hookAt false k three' n' v) j w).2) w =
+        iter (hookAt false k three' n' v) l.length w := by
+    intro l
+    induction l with
+    | nil => intro w; rfl
+    | cons a l ih => intro w; rw [List.foldl_cons, askVia_own_snd, ih]; rfl
+  rw [hf, iter_hookAt]
+  show (P, (afterQuestions k R P.queries.length ⟨cv, ci, s, 0, none⟩).bump P.dValid P.dInvalid) = _
+  by_cases hr : ran
+  · have h2 : (0 : Nat) < k ∧ k ≤ 0 + P.queries.length := by simpa [ran] using hr
+    simp only [afterQuestions, h2, hr, if_true, World.bump]
+    simp
+  · have h2 : ¬ ((0 : Nat) < k ∧ k ≤ 0 + P.queries.length) := by simpa [ran] using hr
+    simp only [afterQuestions, h2, hr, if_false, World.bump]
+    simp
+
+/-- outer motion: 3 segments, all valid; nested motion: 3 segments, point 2 invalid; the nested call is made at the
+outer call's first question.  With per-call scratch both calls return what they return alone. -/
+def exV : Nat × Nat → Bool := fun p => !(p.1 == 1 && p.2 == 2)
+
+example : (outerCall false true 3 1 true 3 exV ⟨0, 0, (9, 9), 0, none⟩).1.verdict = true ∧
+    ((outerCall false true 3 1 true 3 exV ⟨0, 0, (9, 9), 0, none⟩).2.nested.map (·.failAt)) = some (some 2) ∧
+    (outerCall false true 3 1 true 3 exV ⟨0, 0, (9, 9), 0, none⟩).2.cv = 1 ∧
+    (outerCall false true 3 1 true 3 exV ⟨0, 0, (9, 9), 0, none⟩).2.ci = 1 := by decide
+
+/-- the defect class of seeded change C05-s7 is a violation: with ONE scratch state shared by all calls the outer call
+is handed the nested motion's last point — a motion whose every subdivision point is valid is reported invalid and
+`lastValid` is written (here: fraction `0/3`). -/
+theorem shared_scratch_fails :
+    ¬ ∀ (three : Bool) (n k : Nat) (three' : Bool) (n' : Nat) (v : Nat × Nat → Bool) (w : World),
+      (outerCall true three n k three' n' v w).1 = checkPure three n (fun j => v (0, j)) := by
+  intro h
+  have := h true 3 1 true 3 exV ⟨0, 0, (9, 9), 0, none⟩
+  exact absurd this (by decide)
+
+example : (outerCall true true 3 1 true 3 exV ⟨0, 0, (9, 9), 0, none⟩).1.verdict = false ∧
+    (outerCall true true 3 1 true 3 exV ⟨0, 0, (9, 9), 0, none⟩).1.failAt = some 1 ∧
+    AllValid 3 (fun j => exV (0, j)) := by
+  refine ⟨by decide, by decide, by decide, fun j _ _ => by simp [exV]⟩
 
 end OmplModel.Props.C05
